@@ -851,6 +851,45 @@ def _wide_code_objects() -> frozenset[Any]:
     return _WIDE
 
 
+def run_as_one_simulated_caller(fn: Callable[[], Any], seed: int, pkg_dir: str,
+                                 preempt_lines: bool = True) -> tuple[Any, "Scheduler"]:
+    """Run ``fn()`` (a sequence of library calls written for the main thread) as the single caller
+    thread of a simulation: threads the library starts are adopted and interleaved with it under
+    a seeded geometric schedule.  Returns (fn's result, scheduler); exceptions of fn propagate;
+    a deadlock raises SimDeadlock."""
+    # history-only mode: the caller itself is not traced (it yields where it blocks and at the
+    # boundaries it marks with ``caller_boundary()``); threads the library starts are traced and
+    # pre-empted geometrically
+    sched = Scheduler({"mode": "sequential", "seed": seed & 0xFFFFFFFF, "p_boundary": 0.5},
+                      1, pkg_dir, preempt_lines=preempt_lines)
+    box: dict[str, Any] = {}
+
+    def body(client: Client) -> None:
+        sched.begin_op(client, 0)
+        try:
+            box["ok"] = fn()
+        except HarnessError:
+            raise
+        except BaseException as e:  # noqa: BLE001
+            box["exc"] = e
+        sched.end_op(client)
+
+    sched.run([body])
+    if "exc" in box:
+        raise box["exc"]
+    return box.get("ok"), sched
+
+
+def caller_boundary() -> None:
+    """Between two library calls of a simulated caller: a point where a thread the library runs
+    in the background may be scheduled (no-op outside a simulation)."""
+    sched = simthreads.ACTIVE
+    if sched is not None:
+        cur = simthreads.baton_holder()
+        if cur is not None and not cur.adopted:
+            sched.yield_point(cur, None, boundary=True)
+
+
 def deadlock_result(prop: str, e: BaseException, sched: "Scheduler") -> dict[str, Any]:
     """Verdict of a run that deadlocked among threads / locks the library made itself.  Returned
     at once: the parked threads still hold the library's locks, so nothing in this process may
